@@ -186,7 +186,7 @@ inline void run_calls(const Loop& L, Out& O) {
     case CALL_QUASI_MS: O.s_dec = C_Polyhedron(7, EMPTY); O.s_bnd = C_Polyhedron(2, UNIVERSE);
       ok = step(nm, [&]() { if (L.two) all_affine_quasi_ranking_functions_MS_2(*pb, *pa, O.s_dec, O.s_bnd); else all_affine_quasi_ranking_functions_MS(*pa, O.s_dec, O.s_bnd); }); break;
     }
-    if (ok) O.done |= (1 << c);
+    if (ok) { O.done |= (1 << c); if (c <= CALL_ONE_PR) hx::trace() += (O.verdict[c] ? "=true" : "=false"); }
   }
 }
 
